@@ -75,6 +75,8 @@ type keyCodec struct {
 	keys   []interface{} // index rank-1
 	layers []int
 	zero   interface{}
+	idx    map[string]int
+	jidx   map[string]int
 }
 
 func (c *keyCodec) Key(rank int) interface{} { return c.keys[rank-1] }
@@ -91,21 +93,28 @@ func canonKey(k interface{}) string {
 
 // Rank returns the rank of a concrete key, or -1 if it is not of this codec.
 func (c *keyCodec) Rank(k interface{}) int {
-	s := canonKey(k)
-	for i, x := range c.keys {
-		if canonKey(x) == s {
-			return i + 1
+	if c.idx == nil {
+		c.idx = map[string]int{}
+		for i, x := range c.keys {
+			c.idx[canonKey(x)] = i + 1
 		}
+	}
+	if r, ok := c.idx[canonKey(k)]; ok {
+		return r
 	}
 	return -1
 }
 
 func (c *keyCodec) RankFromJSON(raw []byte) int {
-	for i, x := range c.keys {
-		b, _ := json.Marshal(x)
-		if bytes.Equal(b, raw) {
-			return i + 1
+	if c.jidx == nil {
+		c.jidx = map[string]int{}
+		for i, x := range c.keys {
+			b, _ := json.Marshal(x)
+			c.jidx[string(b)] = i + 1
 		}
+	}
+	if r, ok := c.jidx[string(raw)]; ok {
+		return r
 	}
 	return -1
 }
